@@ -8,6 +8,9 @@ CONSTANTS
   MaxNodes = 1
   MaxStack = 1
   BugOptionalDropsNone = FALSE
+  FixedStar = FALSE
+  FixedFinalInString = FALSE
+  FixedNestedLiteral = FALSE
   AnnChoices = {"noann", "int", "QA"}
   DefaultChoices = {"none", "int:1", "..."}
   RetChoices = {"noann", "int"}
@@ -18,6 +21,7 @@ CONSTANTS
   MaxPos = 2
   MaxKw = 1
   BugRuntimeIgnoresKwDefaults = FALSE
+  FixedDunder = FALSE
 INVARIANT HeaderViewsAgree
 INVARIANT ViewsMatchInspect
 CHECK_DEADLOCK FALSE
